@@ -76,6 +76,66 @@ pub open spec fn row7(e: BigWigAverageOverBedEntry) -> Row { row_spec(fmt7(), (e
 /// the whole line: name column, a tab, the statistics
 pub open spec fn out_line(name: NameText, stats: Row) -> Line { line_spec("{}\t{}", (name, stats)) }
 
+// ---------------- which statistics a row is built from (both copies) ----------------
+pub enum BBIReadError {
+    InvalidChromosome(ErrText),
+    UnknownMagic,
+    InvalidFile(ErrText),
+    BedValueError(BedValueErr),
+    IoError(IoErr),
+}
+#[verifier::external_body] pub struct BedValueErr { _p: u8 }
+#[verifier::external_body] pub struct ErrText { _p: u8 }
+#[verifier::external_body] pub struct CirTreeSearchError { _p: u8 }
+/// `Box<dyn Error + Send + Sync>` made from a read error by `e.into()` (opaque)
+#[verifier::external_body] pub struct AnyErr { _p: u8 }
+#[verifier::external_body] pub fn any_err(e: BBIReadError) -> (r: AnyErr) { unimplemented!() }
+/// the region's statistics as `stats_for_bed_item` returned them are what the row shows: C17 is about regions
+/// on a chromosome PRESENT in the bigWig, for which `stats_for_bed_item` returns Ok (unit stats) -- whatever the
+/// number of covered bases ("NaN means and extrema when nothing is covered" are inside `s`, unit stats)
+pub open spec fn shows_the_computed_stats(res: Result<BigWigAverageOverBedEntry, BBIReadError>, r: Result<BigWigAverageOverBedEntry, AnyErr>) -> bool {
+    res matches Ok(s) ==> r == Ok::<BigWigAverageOverBedEntry, AnyErr>(s)
+}
+// multi-threaded copy: `let entry = match stats_for_bed_item(chrom, entry, inbigwig) { ARMS };` of process_chunk
+fn entry_mt(res: Result<BigWigAverageOverBedEntry, BBIReadError>, size: u32) -> (r: Result<BigWigAverageOverBedEntry, AnyErr>)
+    ensures
+        
+        shows_the_computed_stats(res, r),
+        
+        (res matches Err(e) && !(e is InvalidChromosome)) ==> r is Err,
+{
+    let entry = match res {
+                    Ok(stats) => stats,
+                    Err(BBIReadError::InvalidChromosome(..)) => BigWigAverageOverBedEntry {
+                        bases: 0,
+                        max: 0.0,
+                        min: 0.0,
+                        mean: 0.0,
+                        mean0: 0.0,
+                        size,
+                        sum: 0.0,
+                    },
+                    Err(e) => {
+                        return Err(any_err(e));
+                    }
+    };
+    Ok(entry)
+}
+// single-threaded copy: the LAST such statement of `bigwigaverageoverbed`
+fn entry_st(res: Result<BigWigAverageOverBedEntry, BBIReadError>, size: u32) -> (r: Result<BigWigAverageOverBedEntry, AnyErr>)
+    ensures
+        
+        shows_the_computed_stats(res, r),
+        
+        (res matches Err(e) && !(e is InvalidChromosome)) ==> r is Err,
+{
+    let entry = match res {
+                Ok(stats) => stats,
+                Err(e) => return Err(any_err(e)),
+    };
+    Ok(entry)
+}
+
 // ---- multi-threaded path: the FIRST `let stats = match add_min_max {..};` of `process_chunk` ----
 fn stats_row_mt(entry: &BigWigAverageOverBedEntry, add_min_max: bool) -> (r: Row)
     ensures
